@@ -1,8 +1,9 @@
 /* C10 - wire behaviour conforms to the RFCs: MatrixSSL interoperates with an independent stack.
  *
- * One case = one configuration (role, version, suite, server certificate, key-exchange group incl.
- * HelloRetryRequest, client authentication, resumption mode, extended master secret, DTLS cookie,
- * payload plan, read-chunk size).  The MatrixSSL endpoint (the sanitizer build of /repo) and an
+ * One case = one configuration (role, version, suite, server certificate incl. the identities whose chain is
+ * signed with SHA-384 / SHA-512, key-exchange group incl. HelloRetryRequest, client authentication,
+ * resumption mode, extended master secret, DTLS cookie length chosen by the OpenSSL server application,
+ * DTLS flight to lose once + timer mode, payload plan, read-chunk size).  The MatrixSSL endpoint (the sanitizer build of /repo) and an
  * OpenSSL 3 endpoint run in one forked child and talk over in-memory queues (byte stream for TLS,
  * datagram queue for DTLS).  Both stacks draw their randomness from seeded streams, so a case replays
  * exactly.  MatrixSSL is driven like the reference applications: read at most `chunk` bytes, call
@@ -21,6 +22,10 @@
  * as pass or violation.  OpenSSL policy knobs are opened (security level 0, exact protocol version,
  * SSL_OP_LEGACY_SERVER_CONNECT, no wall-clock DTLS retransmission) so that only protocol conformance
  * is judged.
+ *   - DTLS with a lost flight (loss=<flight>/<timer mode>): the handshake completes on both stacks within
+ *     LOSS_TIMEOUT_ROUNDS logical timeout rounds (clauses dtls-loss-handshake-stalls / -fails, family = the
+ *     flight), then everything above holds as well;
+ *   - the OpenSSL server's cookie callbacks saw its cookie echoed bit-exact and never a wrong one.
  *
  * Violation key: c10:<clause>:<version>:<role>:<family>[+<dimension>...] where the dimensions are the
  * non-default settings that are NEEDED for the failure (found by re-running the case with one
@@ -31,14 +36,21 @@
 #include <openssl/err.h>
 #include <openssl/x509.h>
 #include <openssl/evp.h>
+#include <openssl/pem.h>
 
 /* ------------------------------------------------------------------ configuration space --- */
 enum { R_MXC = 0, R_MXS = 1 };
 static const char *rolename[] = { "mx-client", "mx-server" };
 
-enum { CT_NONE = 0, CT_RSA, CT_RSA3072, CT_PSS, CT_EC256, CT_EC384, CT_EC521, CT_ED25519, CT_N };
-static const struct { const char *name, *cert, *key, *ca; int curve; } certs[CT_N] = {
-    { "none", NULL, NULL, NULL, 0 },
+/* CT_BASE_N.. : identities whose CHAIN is signed with SHA-384 / SHA-512 (same keys as ec384 / ec521 / rsa2048).  Below TLS 1.3 MatrixSSL
+ * takes the CertificateVerify / ServerKeyExchange hash from the certificate's own signature algorithm, so these reach the SHA-384 / SHA-512
+ * handshake-hash snapshots that the SHA-256-signed sample chains never touch.  rsa2048-sha384 has no sample file: it is RSA/2048_RSA.pem
+ * re-signed with sha384WithRSAEncryption by the sample CA key at start-up (mint_rsa_sha384). */
+enum { CT_NONE = 0, CT_RSA, CT_RSA3072, CT_PSS, CT_EC256, CT_EC384, CT_EC521, CT_ED25519, CT_BASE_N,
+       CT_EC384S384 = CT_BASE_N, CT_EC521S512, CT_RSAS384, CT_RSAS512, CT_N };
+static char minted_rsa384[600];
+static struct { const char *name, *cert, *key, *ca; int curve, chainhash; } certs[CT_N] = {
+    { "none", NULL, NULL, NULL, 0, 0 },
     { "rsa2048", MX_TK "RSA/2048_RSA.pem", MX_TK "RSA/2048_RSA_KEY.pem", MX_TK "RSA/2048_RSA_CA.pem", 0 },
     { "rsa3072", MX_TK "RSA/3072_RSA.pem", MX_TK "RSA/3072_RSA_KEY.pem", MX_TK "RSA/3072_RSA_CA.pem", 0 },
     { "rsapss", MX_TK "RSA/2048_RSA_PSS.pem", MX_TK "RSA/2048_RSA_PSS_KEY.pem", MX_TK "RSA/2048_RSA_PSS_CA.pem", 0 },
@@ -46,9 +58,23 @@ static const struct { const char *name, *cert, *key, *ca; int curve; } certs[CT_
     { "ec384", MX_TK "EC/384_EC.pem", MX_TK "EC/384_EC_KEY.pem", MX_TK "EC/384_EC_CA.pem", 24 },
     { "ec521", MX_TK "EC/521_EC.pem", MX_TK "EC/521_EC_KEY.pem", MX_TK "EC/521_EC_CA.pem", 25 },
     { "ed25519", MX_TK "EC/ED25519.pem", MX_TK "EC/ED25519_KEY.pem", MX_TK "EC/ED25519_CA.pem", 0 },
+    { "ec384-sha384", MX_TK "EC/384_EC_SHA384.pem", MX_TK "EC/384_EC_KEY.pem", MX_TK "EC/384_EC_CA_SHA384.pem", 24, 384 },
+    { "ec521-sha512", MX_TK "EC/521_EC_SHA512.pem", MX_TK "EC/521_EC_KEY.pem", MX_TK "EC/521_EC_CA_SHA512.pem", 25, 512 },
+    { "rsa2048-sha384", minted_rsa384, MX_TK "RSA/2048_RSA_KEY.pem", MX_TK "RSA/2048_RSA_CA.pem", 0, 384 },
+    { "rsa2048-sha512", MX_TK "RSA/2048_RSA_SHA512.pem", MX_TK "RSA/2048_RSA_KEY.pem", MX_TK "RSA/2048_RSA_SHA512_CA.pem", 0, 512 },
 };
-static int cert_is_rsa(int c) { return c == CT_RSA || c == CT_RSA3072 || c == CT_PSS; }
-static int cert_is_ecdsa(int c) { return c == CT_EC256 || c == CT_EC384 || c == CT_EC521; }
+static int cert_is_rsa(int c) { return c == CT_RSA || c == CT_RSA3072 || c == CT_PSS || c == CT_RSAS384 || c == CT_RSAS512; }
+static int cert_is_ecdsa(int c) { return c == CT_EC256 || c == CT_EC384 || c == CT_EC521 || c == CT_EC384S384 || c == CT_EC521S512; }
+static int cert_is_rsa_encryption(int c) { return c == CT_RSA || c == CT_RSA3072 || c == CT_RSAS384 || c == CT_RSAS512; }
+/* The SHA-384 / SHA-512 sample chains come with their own self-signed root files: same CA name and key as the SHA-256 root, other
+ * signature.  When the two ends of one connection use identities from both files, OpenSSL (which completes its chain from its verify
+ * store) sends a root certificate that differs from the one MatrixSSL was given as anchor, and MatrixSSL answers bad_certificate.
+ * That is chain building with a re-issued root (C03 / C04 territory), not a protocol matter: such pairs are not run. */
+static int two_roots_one_ca(int a, int b)
+{
+    static const int fam[CT_N] = { [CT_RSA] = 1, [CT_RSAS384] = 1, [CT_RSAS512] = 1, [CT_EC384] = 2, [CT_EC384S384] = 2, [CT_EC521] = 3, [CT_EC521S512] = 3 };
+    return a != b && fam[a] && fam[a] == fam[b] && strcmp(certs[a].ca, certs[b].ca);
+}
 
 /* named groups (IANA ids); 0 = leave both stacks on their defaults */
 static const struct { int id; const char *name, *oname; int ecflag; } groups[] = {
@@ -70,9 +96,21 @@ static const int dtls_sizes[] = { 1, 100, 1000, 1200 };
 #define PLAN_LONG 0x100     /* more than 256 records per direction under one key (record sequence numbers cross a byte boundary) */
 static const int chunks[] = { 0, 3, 17, 1399, 4096, 16389 };
 
+/* DTLS HelloVerifyRequest cookie of the OpenSSL server (mx-client): length in bytes, 0 = no cookie exchange.  RFC 6347 4.2.1 allows 0..255
+ * (RFC 4347: 0..32 - DTLS 1.0 configurations with longer cookies are not conforming and not run). */
+#define COOKIE_DEFAULT 24
+static const int cookie_lens[] = { 1, 16, 32, 33, 64, 255 };
+/* DTLS loss dimension: the first transmission of one handshake flight (all its datagrams) is lost; both stacks then retransmit on
+ * timers that the harness fires in logical time (see pump_lossy).  The flight is named by content, not by position, so that the name
+ * means the same with and without cookie exchange and in full and resumed handshakes. */
+enum { FL_NONE = 0, FL_CH1, FL_HVR, FL_CH2, FL_SHELLO, FL_CFIN, FL_SFIN, FL_N };
+static const char *flightname[] = { "none", "client-hello", "hello-verify-request", "client-hello-with-cookie", "server-hello-flight", "client-finished-flight", "server-finished-flight" };
+/* which timers fire in the first timeout round (afterwards always both): both, only OpenSSL's, only the MatrixSSL application's */
+enum { LM_BOTH = 0, LM_OSSL_FIRST, LM_MX_FIRST, LM_N };
 typedef struct {
     int role, ver, suite /* index into mx_suites */, cert, g0 /* first share / only offer */, g1 /* group to end up with */;
     int cauth /* cert type the client authenticates with, CT_NONE = off */, res, ems, cookie, plan, chunk;
+    int loss /* FL_* */, lossmode /* LM_* */;
 } cfg_t;
 
 static const char *kxname(const mx_suite_t *s)
@@ -100,15 +138,19 @@ static const char *ciphername(const mx_suite_t *s)
 
 static void cfg_spec(const cfg_t *c, char *out, size_t cap)
 {
-    snprintf(out, cap, "role=%s,ver=%s,suite=%04x,cert=%s,group=%s>%s,cauth=%s,res=%s,ems=%d,cookie=%d,plan=0x%x,chunk=%d",
+    int n = snprintf(out, cap, "role=%s,ver=%s,suite=%04x,cert=%s,group=%s>%s,cauth=%s,res=%s,ems=%d,cookie=%d,plan=0x%x,chunk=%d",
         c->role ? "mxs" : "mxc", mx_vername[c->ver], mx_suites[c->suite].id, certs[c->cert].name, groups[group_idx(c->g0)].name,
         groups[group_idx(c->g1)].name, certs[c->cauth].name, resname[c->res], c->ems, c->cookie, c->plan, c->chunk);
+    if (c->loss) snprintf(out + n, cap - n, ",loss=%s/%d", flightname[c->loss], c->lossmode);
 }
 static int cfg_parse(const char *s, cfg_t *c)
 {
-    char role[8], ver[16], cert[16], ga[16], gb[16], ca[16], res[16]; unsigned suite, plan;
-    if (sscanf(s, "role=%7[^,],ver=%15[^,],suite=%x,cert=%15[^,],group=%15[^>]>%15[^,],cauth=%15[^,],res=%15[^,],ems=%d,cookie=%d,plan=0x%x,chunk=%d",
-            role, ver, &suite, cert, ga, gb, ca, res, &c->ems, &c->cookie, &plan, &c->chunk) != 12) return -1;
+    char role[8], ver[16], cert[16], ga[16], gb[16], ca[16], res[16], fl[32] = ""; unsigned suite, plan; int lm = 0;
+    int nf = sscanf(s, "role=%7[^,],ver=%15[^,],suite=%x,cert=%15[^,],group=%15[^>]>%15[^,],cauth=%15[^,],res=%15[^,],ems=%d,cookie=%d,plan=0x%x,chunk=%d,loss=%31[^/]/%d",
+            role, ver, &suite, cert, ga, gb, ca, res, &c->ems, &c->cookie, &plan, &c->chunk, fl, &lm);
+    if (nf != 12 && nf != 14) return -1;
+    c->loss = FL_NONE; c->lossmode = lm;
+    if (nf == 14) { c->loss = -1; for (int i = 0; i < FL_N; i++) if (!strcmp(fl, flightname[i])) c->loss = i; if (c->loss < 0 || lm < 0 || lm >= LM_N) return -1; }
     c->role = !strcmp(role, "mxs"); c->plan = plan; c->ver = c->suite = c->cert = c->cauth = c->res = -1;
     for (int i = 0; i < MX_NVER; i++) if (!strcmp(ver, mx_vername[i])) c->ver = i;
     for (int i = 0; i < MX_NSUITES; i++) if (mx_suites[i].id == suite) c->suite = i;
@@ -128,7 +170,7 @@ static int cert_fits(const mx_suite_t *s, int ct, int ver)
     if (s->tls13) return 1;
     if (s->auth == MX_AUTH_ECDSA) return cert_is_ecdsa(ct) || ct == CT_ED25519;
     if (suite_is_ecdhe(s)) return cert_is_rsa(ct);
-    return ct == CT_RSA || ct == CT_RSA3072;           /* RSA key transport needs an rsaEncryption key */
+    return cert_is_rsa_encryption(ct);                 /* RSA key transport needs an rsaEncryption key */
 }
 static int default_cert(const mx_suite_t *s) { return s->auth == MX_AUTH_PSK ? CT_NONE : s->auth == MX_AUTH_ECDSA ? CT_EC256 : CT_RSA; }
 
@@ -180,6 +222,15 @@ static int o_rand_seed(const void *b, int n) { (void) b; (void) n; return 1; }
 static int o_rand_add(const void *b, int n, double e) { (void) b; (void) n; (void) e; return 1; }
 static const RAND_METHOD o_rand_meth = { o_rand_seed, o_rand_bytes, NULL, o_rand_add, o_rand_bytes, o_rand_status };
 
+/* ------------------------------------------------------------------ OpenSSL's DTLS timer in logical time ---
+ * libssl reads the wall clock through gettimeofday (ssl/d1_lib.c get_current_time).  This definition in the executable takes precedence
+ * over libc's for the shared libraries, so OpenSSL's retransmission timer runs on a clock that only the harness advances: it never
+ * fires on a loaded machine and fires exactly when a timeout round says so.  (MatrixSSL's own references are redirected to
+ * __wrap_gettimeofday by the linker and are not affected.) */
+#include <sys/time.h>
+static long o_clock_s;
+int gettimeofday(struct timeval *restrict tv, void *restrict tz) { (void) tz; if (tv) { tv->tv_sec = mx_now + o_clock_s; tv->tv_usec = 0; } return 0; }
+
 /* ------------------------------------------------------------------ one connection --- */
 typedef struct {
     const cfg_t *c; const mx_suite_t *s; int dtls; int connno;
@@ -187,10 +238,13 @@ typedef struct {
     int odone, ofail, oclosed; char oerr[300];
     unsigned char *ogot; size_t ogotlen, ogotcap;
     int stalled;
+    /* DTLS loss dimension (active while the handshake of the lossy connection runs) */
+    int lossy, dropped, forceSend, trounds, mretx, oretx, mGotInput; char lostdesc[120];
 } conn_t;
 
 static char SPEC[400];
 static const cfg_t *CUR;
+static int LOSS_VACUOUS;   /* the flight to lose does not occur in this configuration's handshake: the case says nothing about loss */
 /* Failures of one execution are collected first: the responsible configuration dimensions are then
  * isolated by re-running reduced configurations, so that the violation key names the cause and stays
  * the same whatever other dimensions the failing case happened to carry. */
@@ -219,8 +273,10 @@ static const char *deviations(const cfg_t *c, int rechunk_sensitive, int skip_re
     else if (c->g1) n += snprintf(f + n, sizeof f - n, "+group-%s", groups[group_idx(c->g1)].name);
     if (c->cauth) n += snprintf(f + n, sizeof f - n, "+clientauth-%s", certs[c->cauth].name);
     if (!c->ems && !s->tls13) n += snprintf(f + n, sizeof f - n, "+no-ems");
-    if (c->res != RS_NONE && !skip_res) n += snprintf(f + n, sizeof f - n, "+%s", c->res == RS_EXTPSK ? "external-psk" : resname[c->res]);
+    if (c->res != RS_NONE && !skip_res) n += snprintf(f + n, sizeof f - n, "+%s", c->loss ? "resumed" : c->res == RS_EXTPSK ? "external-psk" : resname[c->res]);   /* loss: the resumed handshake is the lossy one, whatever carried the state */
     if (MX_IS_DTLS(c->ver) && c->role == R_MXC && !c->cookie) n += snprintf(f + n, sizeof f - n, "+no-cookie");
+    else if (MX_IS_DTLS(c->ver) && c->role == R_MXC && c->cookie != COOKIE_DEFAULT) n += snprintf(f + n, sizeof f - n, c->cookie > 32 ? "+cookie-over-32-bytes" : "+cookie-up-to-32-bytes");
+    if (c->loss && c->lossmode) n += snprintf(f + n, sizeof f - n, c->lossmode == LM_OSSL_FIRST ? "+openssl-timer-first" : "+matrixssl-timer-first");
     if (rechunk_sensitive) n += snprintf(f + n, sizeof f - n, "+only-when-stream-is-rechunked");
     return f;
 }
@@ -270,28 +326,68 @@ static void trace_wire(conn_t *k, const char *dir, const unsigned char *b, int n
     }
     if (off < n) fprintf(stderr, "    %s +%d bytes (partial record)\n", dir, n - off);
 }
-/* MatrixSSL -> OpenSSL: every GetOutdata result is one datagram (DTLS) or a piece of the stream */
-static int move_m2o(conn_t *k)
+/* Name a DTLS handshake flight by its content (first datagram decides hello kinds; a ChangeCipherSpec record anywhere makes it a
+ * Finished flight).  Returns FL_NONE for anything that is not a handshake flight. */
+static int flight_kind(int from_client, const unsigned char *d, int n, int prev)
+{
+    int off = 0, kind = prev; mx_rec r;
+    while (off < n && mx_rec_at(d, n, off, 1, &r)) {
+        if (r.type == 20) kind = from_client ? FL_CFIN : FL_SFIN;
+        else if (r.type == 22 && r.epoch == 0 && r.len >= 12 && kind == FL_NONE) {
+            const unsigned char *h = d + off + r.hdr; int t = h[0];
+            if (t == 1 && from_client) {
+                /* ClientHello body: version(2) random(32) session_id<0..32> cookie<0..255> */
+                int p = 12 + 34, cl = -1;
+                if (p < r.len) { p += 1 + h[p]; if (p < r.len) cl = h[p]; }
+                kind = cl > 0 ? FL_CH2 : FL_CH1;
+            } else if (t == 3 && !from_client) kind = FL_HVR;
+            else if (t == 2 && !from_client) kind = FL_SHELLO;
+            else if (from_client) kind = FL_CFIN;         /* Certificate / ClientKeyExchange open the client's second flight */
+        }
+        off += r.hdr + r.len;
+    }
+    return kind;
+}
+/* Loss decision for one batch of datagrams emitted in one turn (= one flight): the first flight of the configured kind is lost whole. */
+static int lose_flight(conn_t *k, int from_client, int kind, int ndg, int nbytes)
+{
+    if (!k->lossy || k->dropped || kind != k->c->loss) return 0;
+    k->dropped = 1;
+    snprintf(k->lostdesc, sizeof k->lostdesc, "%s of the %s (%d datagram%s, %d bytes)", flightname[kind], (from_client == (k->c->role == R_MXC)) ? "MatrixSSL endpoint" : "OpenSSL endpoint", ndg, ndg == 1 ? "" : "s", nbytes);
+    if (vf_verbose) fprintf(stderr, "    LOST: %s\n", k->lostdesc);
+    return 1;
+}
+/* MatrixSSL -> OpenSSL: every GetOutdata result is one datagram (DTLS) or a piece of the stream.
+ * timeout != 0: the application's retransmission timer fired - matrixDtlsGetOutdata is called although nothing is pending, which is how the
+ * reference applications ask the library to rebuild its last flight. */
+static int move_m2o_ex(conn_t *k, int timeout)
 {
     int tot = 0; mx_ep *e = &k->M;
+    q_t batch = { NULL, NULL }; int ndg = 0, kind = FL_NONE;
     for (int guard = 0; guard < 10000; guard++) {
         unsigned char *ob;
-        if (k->dtls && e->ssl->outlen == 0 && !e->ssl->flightDone) break;   /* an extra call would mean "timeout: resend" */
+        if (k->dtls && e->ssl->outlen == 0 && !e->ssl->flightDone && !timeout && !k->forceSend) break;   /* an extra call would mean "timeout: resend" */
+        timeout = 0; k->forceSend = 0;
         mx_actor = e->id; e->calls++;
         int n = k->dtls ? matrixDtlsGetOutdata(e->ssl, &ob) : matrixSslGetOutdata(e->ssl, &ob);
         if (n <= 0) { if (n < 0) { e->dead = 1; e->lastrc = n; } break; }
         trace_wire(k, "mx->os", ob, n);
-        q_push(&k->Q.in, ob, n); tot += n;
+        if (k->lossy) { q_push(&batch, ob, n); ndg++; kind = flight_kind(k->c->role == R_MXC, ob, n, kind); } else q_push(&k->Q.in, ob, n);
+        tot += n;
         mx_actor = e->id; e->calls++;
         int rc = k->dtls ? matrixDtlsSentData(e->ssl, n) : matrixSslSentData(e->ssl, n);
         if (rc == MATRIXSSL_HANDSHAKE_COMPLETE) e->hsDone = 1;
         else if (rc == MATRIXSSL_REQUEST_CLOSE) e->closeReq = 1;
         else if (rc < 0) { e->dead = 1; e->lastrc = rc; break; }
     }
+    if (ndg) {
+        if (lose_flight(k, k->c->role == R_MXC, kind, ndg, tot)) q_clear(&batch);
+        else while (batch.h) { q_push(&k->Q.in, batch.h->d, batch.h->n); q_pop(&batch); }
+    }
     e->wantTake = 0;
     return tot;
 }
-static int move_m2o(conn_t *k);
+static int move_m2o(conn_t *k) { return move_m2o_ex(k, 0); }
 /* Deliver stream bytes the way the reference applications do: read at most `chunk` bytes into the read
  * buffer, hand them to matrixSslReceivedData, and whenever the library asks to send
  * (MATRIXSSL_REQUEST_SEND) flush its output before reading on. */
@@ -318,7 +414,22 @@ static int move_o2m(conn_t *k)
 {
     int tot = 0;
     if (k->dtls) {
-        while (k->Q.out.h) { qnode *x = k->Q.out.h; tot += x->n; trace_wire(k, "os->mx", x->d, x->n); if (!k->M.dead) mx_feed(&k->M, x->d, x->n); q_pop(&k->Q.out); }
+        if (k->lossy && k->Q.out.h) {
+            int kind = FL_NONE, ndg = 0, nb = 0;
+            for (qnode *x = k->Q.out.h; x; x = x->next) { kind = flight_kind(k->c->role == R_MXS, x->d, x->n, kind); ndg++; nb += x->n; }
+            if (lose_flight(k, k->c->role == R_MXS, kind, ndg, nb)) { for (qnode *x = k->Q.out.h; x; x = x->next) trace_wire(k, "os->(lost)", x->d, x->n); q_clear(&k->Q.out); return nb; }
+        }
+        while (k->Q.out.h) {
+            qnode *x = k->Q.out.h; tot += x->n; trace_wire(k, "os->mx", x->d, x->n);
+            if (!k->M.dead) {
+                k->mGotInput = 1;
+                int rc = mx_feed(&k->M, x->d, x->n);
+                /* reference applications: one datagram per matrixSslReceivedData, send whenever the library asks (a repeated flight of the
+                   peer makes it answer MATRIXSSL_REQUEST_SEND with an empty outbuf: "call matrixDtlsGetOutdata, I will rebuild my flight") */
+                if (k->lossy && rc == MATRIXSSL_REQUEST_SEND) { k->forceSend = 1; if (k->M.ssl->outlen == 0 && !k->M.ssl->flightDone) k->mretx++; move_m2o(k); }
+            }
+            q_pop(&k->Q.out);
+        }
         return tot;
     }
     unsigned char *buf = NULL; int n = 0;
@@ -330,6 +441,7 @@ static int move_o2m(conn_t *k)
     return n;
 }
 static int m_done(conn_t *k) { return k->M.hsDone && matrixSslHandshakeIsComplete(k->M.ssl); }
+static int move_m2o_ex(conn_t *k, int timeout);
 /* run until neither side has anything to say */
 static void pump(conn_t *k)
 {
@@ -340,6 +452,48 @@ static void pump(conn_t *k)
         int b = move_o2m(k);
         if (a + b == 0) idle++; else idle = 0;
         if (k->M.dead && k->ofail) break;
+    }
+}
+
+/* DTLS handshake over a network that loses one flight.  Logical time: a timeout round happens only when nothing is in flight and the
+ * handshake is not complete on both stacks.  In it the MatrixSSL application's timer fires exactly when the reference applications'
+ * would (apps/dtls: a client that has seen HANDSHAKE_COMPLETE never resends; a server that completed a resumed handshake from
+ * matrixSslReceivedData never resends) and OpenSSL's timer fires through DTLSv1_handle_timeout after its clock was moved past the
+ * longest possible timeout.  lossmode decides which timer fires alone in the first round. */
+#define LOSS_TIMEOUT_ROUNDS 6
+static void fire_timeouts(conn_t *k)
+{
+    int first = k->trounds == 0, mfire = !(first && k->c->lossmode == LM_OSSL_FIRST), ofire = !(first && k->c->lossmode == LM_MX_FIRST);
+    mx_ep *e = &k->M;
+    k->trounds++; STAT("dtls_loss_timeout_rounds", 1);
+    if (vf_verbose) fprintf(stderr, "    TIMEOUT round %d (matrixssl hsState=%d hsDone=%d, openssl %s)\n", k->trounds, e->ssl->hsState, e->hsDone, SSL_state_string_long(k->O));
+    /* dtlsServer.c creates the session when the first datagram arrives: a server that has seen nothing has no timer */
+    if (mfire && !e->dead && !(k->c->role == R_MXS && !k->mGotInput) && !(e->hsDone && (k->c->role == R_MXC || matrixSslIsResumedSession(e->ssl)))) {
+        int n = move_m2o_ex(k, 1);
+        if (n > 0) { k->mretx++; STAT("dtls_loss_matrixssl_timer_retransmissions", 1); }
+    }
+    if (ofire && !k->ofail) {
+        o_clock_s += 70;
+        int r = DTLSv1_handle_timeout(k->O);
+        if (r > 0) { k->oretx++; STAT("dtls_loss_openssl_timer_retransmissions", 1); }
+        else if (r < 0) o_err(k, "DTLSv1_handle_timeout", SSL_get_error(k->O, r));
+        if (vf_verbose) fprintf(stderr, "    openssl timer: DTLSv1_handle_timeout = %d\n", r);
+    }
+}
+static int m_done(conn_t *k);
+static void pump_lossy(conn_t *k)
+{
+    int idle = 0;
+    for (int r = 0; r < 400; r++) {
+        int a = move_m2o(k);
+        o_drive(k);
+        int b = move_o2m(k);
+        if (k->M.dead || k->ofail) break;
+        if (a + b) { idle = 0; continue; }
+        if (++idle < 2) continue;
+        if (k->odone && m_done(k)) break;
+        if (k->trounds >= LOSS_TIMEOUT_ROUNDS) { k->stalled = 1; break; }
+        fire_timeouts(k); idle = 0;
     }
 }
 
@@ -378,8 +532,17 @@ static int o_psk_find_session_cb(SSL *ssl, const unsigned char *id, size_t idlen
 }
 static SSL_SESSION *o_saved;
 static int o_new_session_cb(SSL *s, SSL_SESSION *sess) { (void) s; if (o_saved) SSL_SESSION_free(o_saved); o_saved = sess; return 1; }
-static int o_cookie_gen(SSL *s, unsigned char *cookie, unsigned int *len) { (void) s; memcpy(cookie, "c10-hello-verify-cookie!", 24); *len = 24; return 1; }
-static int o_cookie_verify(SSL *s, const unsigned char *cookie, unsigned int len) { (void) s; return len == 24 && !memcmp(cookie, "c10-hello-verify-cookie!", 24); }
+/* the application-chosen cookie of the OpenSSL server: o_cookie_len bytes (1..255, the callback buffer holds DTLS1_COOKIE_LENGTH = 255) */
+static unsigned int o_cookie_len = COOKIE_DEFAULT; static int o_cookie_verified, o_cookie_rejected;
+static void o_cookie_bytes(unsigned char *b, unsigned int n) { for (unsigned int i = 0; i < n; i++) b[i] = (unsigned char) ("c10-hello-verify-cookie!"[i % 24] + 7 * (i / 24)); }
+static int o_cookie_gen(SSL *s, unsigned char *cookie, unsigned int *len) { (void) s; o_cookie_bytes(cookie, o_cookie_len); *len = o_cookie_len; return 1; }
+static int o_cookie_verify(SSL *s, const unsigned char *cookie, unsigned int len)
+{
+    unsigned char want[256]; (void) s; o_cookie_bytes(want, o_cookie_len);
+    int ok = len == o_cookie_len && !memcmp(cookie, want, len);
+    if (ok) o_cookie_verified++; else o_cookie_rejected++;
+    return ok;
+}
 
 static unsigned int o_dtls_timer(SSL *s, unsigned int us) { (void) s; (void) us; return 4000000000u; }
 static int o_version(int ver) { switch (ver) { case MX_TLS11: return TLS1_1_VERSION; case MX_TLS12: return TLS1_2_VERSION; case MX_TLS13: return TLS1_3_VERSION; case MX_DTLS10: return DTLS1_VERSION; default: return DTLS1_2_VERSION; } }
@@ -417,7 +580,7 @@ static SSL_CTX *o_ctx_new(const cfg_t *c, const char **why)
     if (!server) opts |= SSL_OP_LEGACY_SERVER_CONNECT;     /* this MatrixSSL build has renegotiation compiled out and sends no renegotiation_info */
     if (!c->ems) opts |= SSL_OP_NO_EXTENDED_MASTER_SECRET;
     if (!s->tls13 && c->res != RS_TICKET) opts |= SSL_OP_NO_TICKET;
-    if (dtls && server && c->cookie) { opts |= SSL_OP_COOKIE_EXCHANGE; SSL_CTX_set_cookie_generate_cb(ctx, o_cookie_gen); SSL_CTX_set_cookie_verify_cb(ctx, o_cookie_verify); }
+    if (dtls && server && c->cookie) { opts |= SSL_OP_COOKIE_EXCHANGE; o_cookie_len = (unsigned int) c->cookie; SSL_CTX_set_cookie_generate_cb(ctx, o_cookie_gen); SSL_CTX_set_cookie_verify_cb(ctx, o_cookie_verify); }
     SSL_CTX_set_options(ctx, opts);
     SSL_CTX_set_mode(ctx, SSL_MODE_AUTO_RETRY);
     if (server) {
@@ -663,16 +826,37 @@ static int run_connection(conn_t *k, const cfg_t *c, SSL_CTX *ctx, sslKeys_t *mk
     k->O = SSL_new(ctx);
     BIO *b = qb_new(&k->Q); SSL_set_bio(k->O, b, b);
     /* the queue never loses a datagram: keep OpenSSL's wall-clock retransmission timer from firing on a loaded machine */
-    if (k->dtls) { SSL_set_options(k->O, SSL_OP_NO_QUERY_MTU); SSL_set_mtu(k->O, 1400); DTLS_set_timer_cb(k->O, o_dtls_timer); }
+    /* the loss dimension applies to the first handshake, or to the resumed one when the configuration resumes */
+    int lossy = k->dtls && c->loss && connno == ((c->res == RS_SID || c->res == RS_TICKET) ? 1 : 0);
+    if (k->dtls) { SSL_set_options(k->O, SSL_OP_NO_QUERY_MTU); SSL_set_mtu(k->O, 1400); if (!lossy) DTLS_set_timer_cb(k->O, o_dtls_timer); }
     if (c->role == R_MXC) SSL_set_accept_state(k->O); else { SSL_set_connect_state(k->O); if (connno > 0 && o_saved) SSL_set_session(k->O, o_saved); }
-    pump(k);
+    o_cookie_verified = o_cookie_rejected = 0;
+    if (lossy) { k->lossy = 1; pump_lossy(k); k->lossy = 0; } else pump(k);
     int both = k->odone && !k->ofail && m_done(k) && !k->M.dead;
+    if (lossy) {
+        if (!k->dropped) { STATF(1, "dtls_loss_flight_not_in_this_handshake_%s", flightname[c->loss]); LOSS_VACUOUS = 1; }
+        else if (both) { STATF(1, "dtls_loss_recovered_%s_%s", rolename[c->role], flightname[c->loss]); STATF(1, "dtls_loss_recovered_after_%d_timeout_rounds", k->trounds); }
+    }
+    if (!both && lossy && k->dropped) {
+        /* a network that loses one flight must only delay the handshake */
+        char st[900]; describe_failure(k, st, sizeof st);
+        int stall = !k->M.dead && !k->ofail;
+        fail(stall ? "dtls-loss-handshake-stalls" : "dtls-loss-handshake-fails", flightname[c->loss],
+            "%s handshake: the first transmission of the %s was lost; %s after %d timeout rounds (retransmissions: matrixssl %d, openssl %d) | %s",
+            connno ? "resumed" : "full", k->lostdesc, stall ? "neither stack reports an error but the handshake is not complete on both" : "a stack gave up with an error", k->trounds, k->mretx, k->oretx, st);
+        return -1;
+    }
     if (!both) {
         char st[900]; describe_failure(k, st, sizeof st);
         fail(connno == 2 ? "declined-resumption-handshake-fails" : connno ? "resumed-handshake-fails" : "handshake-fails", connno ? resname[c->res] : kxname(k->s), "%s handshake did not complete on both stacks | %s", connno == 2 ? "third (resumption state offered to a peer that cannot use it)" : connno ? "second (resumption)" : "first", st);
         return -1;
     }
     R->ok = 1;
+    if (k->dtls && c->role == R_MXC && c->cookie) {
+        /* the cookie exchange must really have happened with a cookie of the configured length echoed bit-exact */
+        if (o_cookie_verified < 1 || o_cookie_rejected) fail("parameter-mismatch", "cookie", "openssl server with a %d-byte HelloVerifyRequest cookie completed after %d accepted / %d rejected cookie echoes", c->cookie, o_cookie_verified, o_cookie_rejected);
+        else if (connno == 0) STATF(1, "cookie_%d_bytes_echoed", c->cookie);
+    }
     R->mres = matrixSslIsResumedSession(k->M.ssl) ? 1 : 0; R->ores = SSL_session_reused(k->O) ? 1 : 0;
     R->mver = m_version(k->M.ssl); R->over = o_ver_to_mx(SSL_version(k->O));
     psCipher16_t id = 0; matrixSslGetNegotiatedCiphersuite(k->M.ssl, &id); R->msuite = id;
@@ -731,6 +915,10 @@ static const char *static_gap(const cfg_t *c)
        identity whose chain is signed with RSASSA-PSS is never selected and an empty Certificate is sent (legal, RFC 8446 4.4.2.3);
        the same key works as a TLS 1.3 server credential and OpenSSL's PSS client certificate is accepted by a MatrixSSL server */
     if (s->tls13 && c->role == R_MXC && c->cauth == CT_PSS) return "mx_client_skips_rsa_pss_signed_id";
+    /* RFC 4347 4.2.1: opaque cookie<0..32> - a DTLS 1.0 server that sends more is not conforming, nothing is asserted about it */
+    if (c->ver == MX_DTLS10 && c->role == R_MXC && c->cookie > 32) return "dtls10_cookie_limit_is_32_bytes";
+    if (c->loss && !MX_IS_DTLS(c->ver)) return "loss_dimension_is_dtls_only";
+    if (two_roots_one_ca(c->cert, c->cauth)) return "two_root_files_for_one_ca_name";
     return NULL;
 }
 
@@ -740,7 +928,7 @@ static hs_result R1, R2;
 static int execute(const cfg_t *c)
 {
     const mx_suite_t *s = &mx_suites[c->suite]; const char *why = NULL; char spec[400];
-    CUR = c; cfg_spec(c, spec, sizeof spec); nfails = 0;
+    CUR = c; cfg_spec(c, spec, sizeof spec); nfails = 0; LOSS_VACUOUS = 0; o_clock_s = 0;
     uint64_t h = vf_hash(spec, strlen(spec));
     mx_entropy_seed(vf_seed * 1000003ULL + h);
     vf_rng_init(&o_rng, vf_seed, h);
@@ -830,8 +1018,12 @@ static void run_config(void *arg)
     counting = 1;
     int r = execute(c);
     counting = 0;
-    if (r == 1) {
+    if (r == 1 && LOSS_VACUOUS) vf_stat("configurations_without_the_flight_to_lose", 1);
+    else if (r == 1) {
         vf_stat("configurations_interoperated", 1);
+        if (c->loss) vf_stat("dtls_loss_configurations_recovered", 1);
+        if (certs[c->cert].chainhash || certs[c->cauth].chainhash) vf_statf(1, "chain_hash_cells_%s_%s_prf%s", rolename[c->role], c->cauth ? (certs[c->cauth].chainhash == 384 ? "clientauth-sha384" : "clientauth-sha512") : (certs[c->cert].chainhash == 384 ? "servercert-sha384" : "servercert-sha512"),
+            (s->id == 0x1302 || s->id == 0x009d || s->id == 0xc030 || s->id == 0xc02c || s->id == 0xc028 || s->id == 0xc024 || s->id == 0x00af) ? "384" : "256");
         vf_distinct("%s", SPEC);
         if (sample_this) vf_sample("%s -> version %s suite %04x group %d ems %d, resumed(second) %s", SPEC, mx_vername[R1.mver], R1.msuite, s->tls13 ? R1.mgroup : R1.ogroup, R1.mems, (c->res != RS_NONE && c->res != RS_EXTPSK) ? "yes" : "n/a");
     }
@@ -844,14 +1036,16 @@ static void run_config(void *arg)
         if (dup) continue;
         const char *clause = mine[i].clause; cfg_t m = *c, t; int rechunk = 0;
         int resume_clause = !strcmp(clause, "resumed-handshake-fails") || !strcmp(clause, "not-resumed");
+        if (m.chunk && MX_IS_DTLS(m.ver)) m.chunk = 0;      /* datagrams are never re-chunked */
         if (m.chunk) { t = m; t.chunk = 0; if (still_fails(&t, clause)) m = t; else rechunk = 1; }
-        if (!strcmp(clause, "handshake-fails") || resume_clause) { t = m; t.plan = 1; if (still_fails(&t, clause)) m = t; }
+        if (!strcmp(clause, "handshake-fails") || resume_clause || !strncmp(clause, "dtls-loss-", 10)) { t = m; t.plan = 1; if (still_fails(&t, clause)) m = t; }
         if (m.res != RS_NONE && !resume_clause && strcmp(mine[i].family, "external-psk")) { t = m; t.res = RS_NONE; if (still_fails(&t, clause)) m = t; }
         if (m.cauth) { t = m; t.cauth = CT_NONE; if (still_fails(&t, clause)) m = t; }
         if (m.cert != default_cert(s)) { t = m; t.cert = default_cert(s); if (still_fails(&t, clause)) m = t; }
         if (m.g1 || m.g0) { t = m; t.g0 = t.g1 = 0; if (still_fails(&t, clause)) m = t; }
         if (!m.ems) { t = m; t.ems = 1; if (still_fails(&t, clause)) m = t; }
-        if (!m.cookie) { t = m; t.cookie = 1; if (still_fails(&t, clause)) m = t; }
+        if (m.cookie != COOKIE_DEFAULT) { t = m; t.cookie = COOKIE_DEFAULT; if (still_fails(&t, clause)) m = t; }
+        if (m.loss && m.lossmode) { t = m; t.lossmode = LM_BOTH; if (still_fails(&t, clause)) m = t; }
         char key[320], mspec[400]; cfg_spec(&m, mspec, sizeof mspec);
         snprintf(key, sizeof key, "c10:%s:%s:%s:%s%s", clause, mx_vername[c->ver], rolename[c->role], mine[i].family, deviations(&m, rechunk, resume_clause || !strcmp(mine[i].family, "external-psk")));
         CUR = c;
@@ -878,7 +1072,7 @@ static void add_cfg(cfg_t c)
 static cfg_t base_cfg(int role, int ver, int si)
 {
     cfg_t c; memset(&c, 0, sizeof c);
-    c.role = role; c.ver = ver; c.suite = si; c.cert = default_cert(&mx_suites[si]); c.ems = 1; c.cookie = 1;
+    c.role = role; c.ver = ver; c.suite = si; c.cert = default_cert(&mx_suites[si]); c.ems = 1; c.cookie = COOKIE_DEFAULT;
     return c;
 }
 static const int hrr_pairs[][2] = { { 29, 23 }, { 23, 24 }, { 24, 25 }, { 25, 29 }, { 23, 29 }, { 29, 24 } };
@@ -899,7 +1093,7 @@ static void enumerate_quick(void)
             int pick = 0;
 #define REP() base_cfg(role, v, cand[(rot + pick++) % nc])
             const mx_suite_t *s0 = &mx_suites[cand[0]]; cfg_t c;
-            for (int ct = 1; ct < CT_N; ct++) if (ct != CT_RSA3072 && cert_fits(s0, ct, v) && ct != default_cert(s0)) { c = REP(); c.cert = ct; add_cfg(c); }
+            for (int ct = 1; ct < CT_BASE_N; ct++) if (ct != CT_RSA3072 && cert_fits(s0, ct, v) && ct != default_cert(s0)) { c = REP(); c.cert = ct; add_cfg(c); }
             if (s0->tls13 || suite_is_ecdhe(s0)) for (int g = 1; g <= 4; g++) { c = REP(); c.g0 = c.g1 = groups[g].id; add_cfg(c); }
             /* TLS 1.3: HelloRetryRequest and both PSK modes once per suite (the transcript / binder hash differs) */
             if (s0->tls13) for (int i = 0; i < nc; i++) for (int h = 0; h < 2; h++) { c = base_cfg(role, v, cand[i]); c.g0 = hrr_pairs[h][0]; c.g1 = hrr_pairs[h][1]; add_cfg(c); }
@@ -921,6 +1115,60 @@ static void enumerate_quick_combined(void)
         force_chunk = k ? 17 : 3; add_cfg(c); force_chunk = -1;
     }
 }
+/* 4. identities whose chain is signed with SHA-384 / SHA-512, as server certificate and as client-authentication certificate, in both roles,
+ *    crossed with the PRF / key-schedule hash of the suite (SHA-256, SHA-384) on TLS 1.2, DTLS 1.2 and TLS 1.3 */
+static int suite_idx(uint16_t id) { for (int i = 0; i < MX_NSUITES; i++) if (mx_suites[i].id == id) return i; return -1; }
+static int hash_cell_suite(int v, int ct, int prf384, int alt)
+{
+    if (v == MX_TLS13) return suite_idx(prf384 ? 0x1302 : (alt ? 0x1303 : 0x1301));
+    int gcm = (v == MX_TLS12) != (alt != 0);             /* TLS 1.2 cells use the AEAD suites, DTLS 1.2 cells the CBC ones; alt swaps */
+    if (cert_is_ecdsa(ct)) return suite_idx(prf384 ? (gcm ? 0xc02c : 0xc024) : (gcm ? 0xc02b : 0xc023));
+    return suite_idx(prf384 ? (gcm ? 0xc030 : 0xc028) : (gcm ? 0xc02f : 0xc027));
+}
+static void enumerate_chain_hashes(int alt)
+{
+    static const int vs[] = { MX_TLS12, MX_DTLS12, MX_TLS13 };
+    for (int role = 0; role < 2; role++) for (int vi = 0; vi < 3; vi++) for (int ct = CT_BASE_N; ct < CT_N; ct++) for (int prf = 0; prf < 2; prf++) {
+        int si = hash_cell_suite(vs[vi], ct, prf, alt);
+        if (si < 0 || !mx_suite_ok_for(&mx_suites[si], vs[vi])) continue;
+        /* quick: TLS 1.2 gets both uses in both roles; DTLS 1.2 and TLS 1.3 the uses in which MatrixSSL is the signer (own server certificate / own client certificate) */
+        int both = vf_thorough || vs[vi] == MX_TLS12;
+        cfg_t c = base_cfg(role, vs[vi], si); c.cert = ct; if (both || role == R_MXS) add_cfg(c);
+        c = base_cfg(role, vs[vi], si); if (!mx_suites[si].tls13) c.cert = cert_is_ecdsa(ct) ? CT_EC256 : CT_RSA; c.cauth = ct;
+        if (two_roots_one_ca(c.cert, c.cauth)) c.cert = CT_RSA3072;
+        if (both || role == R_MXC) add_cfg(c);
+    }
+}
+/* 5. DTLS HelloVerifyRequest cookie lengths chosen by the OpenSSL server application (MatrixSSL client) */
+static void enumerate_cookies(void)
+{
+    static const uint16_t ids[] = { 0xc02f, 0x00ae, 0xc02b, 0x009c, 0xc014, 0x008c, 0xc00a, 0x002f };
+    for (int v = MX_DTLS10; v <= MX_DTLS12; v++) for (unsigned li = 0; li < sizeof cookie_lens / sizeof cookie_lens[0]; li++) {
+        if (v == MX_DTLS10 && cookie_lens[li] > 32) continue;
+        int si = -1; for (int t = 0; t < 8 && si < 0; t++) { int x = suite_idx(ids[(li + t) % 8]); if (x >= 0 && mx_suite_ok_for(&mx_suites[x], v)) si = x; }
+        cfg_t c = base_cfg(R_MXC, v, si); c.cookie = cookie_lens[li]; add_cfg(c);
+        /* the cookie exchange is repeated in the resumed handshake (no client certificate here: OpenSSL's ticket would carry it, and a ClientHello
+           that outgrows the path MTU is beyond what the library does by design - only Certificate messages are fragmented) */
+        if (cookie_lens[li] >= 32) { c.res = (li & 1) ? RS_SID : RS_TICKET; add_cfg(c); }
+    }
+}
+/* 6. DTLS loss: every flight lost once, both roles, both DTLS versions, full handshakes (PSK and certificate suites, with client
+ *    authentication once) and resumed ones; the single-timer-first modes once per flight */
+static void enumerate_loss(void)
+{
+    for (int role = 0; role < 2; role++) for (int v = MX_DTLS10; v <= MX_DTLS12; v++) for (int fl = 1; fl < FL_N; fl++) {
+        int psk = suite_idx(v == MX_DTLS12 ? 0x00ae : 0x008c), rsa = suite_idx(v == MX_DTLS12 ? 0xc02f : 0xc013), ec = suite_idx(v == MX_DTLS12 ? 0xc02c : 0xc00a);
+        cfg_t c = base_cfg(role, v, psk); c.loss = fl; add_cfg(c);
+        c = base_cfg(role, v, rsa); c.loss = fl; c.lossmode = 1 + (fl + role) % 2; add_cfg(c);
+        if (vf_thorough) { c.lossmode = 1 + (fl + role + 1) % 2; add_cfg(c); c.lossmode = LM_BOTH; add_cfg(c); }
+        /* quick: client authentication and the no-cookie variant on DTLS 1.2 only; session-id and ticket resumption alternate over the flights */
+        if (vf_thorough || v == MX_DTLS12) { c = base_cfg(role, v, ec); c.loss = fl; c.cauth = CT_EC256; add_cfg(c); }
+        if (fl != FL_SHELLO && (vf_thorough || ((fl + v) & 1))) { c = base_cfg(role, v, (fl & 1) ? rsa : psk); c.loss = fl; c.res = RS_SID; add_cfg(c); }
+        if (fl != FL_SHELLO && (vf_thorough || !((fl + v) & 1))) { c = base_cfg(role, v, rsa); c.loss = fl; c.res = RS_TICKET; add_cfg(c); }
+        if (role == R_MXC && fl != FL_HVR && fl != FL_CH2 && (vf_thorough || v == MX_DTLS12)) { c = base_cfg(role, v, psk); c.loss = fl; c.cookie = 0; add_cfg(c); }
+        if (vf_thorough) for (int si = 0; si < MX_NSUITES; si++) if (mx_suite_ok_for(&mx_suites[si], v) && si != psk && si != rsa) for (int lm = 0; lm < LM_N; lm++) { c = base_cfg(role, v, si); c.loss = fl; c.lossmode = lm; add_cfg(c); }
+    }
+}
 static void enumerate_thorough(void)
 {
     for (int role = 0; role < 2; role++) for (int v = 0; v < MX_NVER; v++) for (int si = 0; si < MX_NSUITES; si++) {
@@ -934,8 +1182,11 @@ static void enumerate_thorough(void)
             if (s->tls13 || suite_is_ecdhe(s)) for (int g = 1; g < NGROUPS; g++) { if (groups[g].id >= 0x100 && !s->tls13) continue; gl[ng][0] = gl[ng][1] = groups[g].id; ng++; }
             if (s->tls13) for (int h = 0; h < 6; h++) { gl[ng][0] = hrr_pairs[h][0]; gl[ng][1] = hrr_pairs[h][1]; ng++; }
             for (int gi = 0; gi < ng; gi++) {
-                static const int cauths[] = { CT_NONE, CT_RSA, CT_EC256, CT_PSS, CT_EC384, CT_EC521, CT_ED25519 };
-                for (int ai = 0; ai < 7; ai++) {
+                static const int cauths[] = { CT_NONE, CT_RSA, CT_EC256, CT_PSS, CT_EC384, CT_EC521, CT_ED25519, CT_EC384S384, CT_EC521S512, CT_RSAS384, CT_RSAS512 };
+                if (ct >= CT_BASE_N && gi != 0) continue;             /* SHA-384 / SHA-512 chains: default group only */
+                for (int ai = 0; ai < 11; ai++) {
+                    if (ct >= CT_BASE_N && ai >= 3 && cauths[ai] != ct) continue;
+                    if (two_roots_one_ca(ct, cauths[ai])) continue;
                     if (s->auth == MX_AUTH_PSK && cauths[ai]) continue;
                     /* the less common client certificate types are crossed with the default group only */
                     if (ai >= 3 && gi != 0) continue;
@@ -944,8 +1195,11 @@ static void enumerate_thorough(void)
                         if (res == RS_EXTPSK && (ct != CT_RSA || cauths[ai])) continue;   /* no certificates in a PSK handshake */
                         for (int ems = 1; ems >= 0; ems--) {
                             if (s->tls13 && !ems) continue;
-                            for (int cookie = 1; cookie >= 0; cookie--) {
-                                if (!cookie && !(MX_IS_DTLS(v) && role == R_MXC && gi == 0 && ai == 0)) continue;
+                            /* cookie: default length everywhere; none, and every other length, for the MatrixSSL DTLS client with default group and no client auth */
+                            for (int ck = -2; ck < (int) (sizeof cookie_lens / sizeof cookie_lens[0]); ck++) {
+                                int cookie = ck == -2 ? COOKIE_DEFAULT : ck == -1 ? 0 : cookie_lens[ck];
+                                if (ck >= -1 && !(MX_IS_DTLS(v) && role == R_MXC && gi == 0 && ai == 0)) continue;
+                                if (ck >= 0 && (ct >= CT_BASE_N || !ems || (res != RS_NONE && cookie != 33 && cookie != 255) || (v == MX_DTLS10 && cookie > 32))) continue;
                                 cfg_t c = base_cfg(role, v, si); c.cert = ct; c.g0 = gl[gi][0]; c.g1 = gl[gi][1]; c.cauth = cauths[ai]; c.res = res; c.ems = ems; c.cookie = cookie;
                                 add_cfg(c);
                             }
@@ -968,18 +1222,39 @@ static void static_ecdh_suites(void *arg)
     }
 }
 
+/* RSA/2048_RSA.pem re-signed with sha384WithRSAEncryption by the sample CA key (PKCS#1 v1.5 is deterministic): the RSA identity whose
+ * chain hash is SHA-384, which the sample set lacks.  Written next to the shard's output file; every child reads it from there. */
+static void mint_rsa_sha384(void)
+{
+    const char *out = vf_arg("--out", NULL);
+    if (out) snprintf(minted_rsa384, sizeof minted_rsa384, "%s.rsa2048-sha384.pem", out); else snprintf(minted_rsa384, sizeof minted_rsa384, "/tmp/c10-%d-rsa2048-sha384.pem", (int) getpid());
+    FILE *f = fopen(MX_TK "RSA/2048_RSA.pem", "r"); X509 *x = f ? PEM_read_X509(f, NULL, NULL, NULL) : NULL; if (f) fclose(f);
+    f = fopen(MX_TK "RSA/2048_RSA_CA_KEY.pem", "r"); EVP_PKEY *ca = f ? PEM_read_PrivateKey(f, NULL, NULL, NULL) : NULL; if (f) fclose(f);
+    int ok = 0;
+    if (x && ca) {
+        ASN1_INTEGER_set(X509_get_serialNumber(x), 384);
+        if (X509_sign(x, ca, EVP_sha384()) > 0 && (f = fopen(minted_rsa384, "w"))) { ok = PEM_write_X509(f, x) == 1; fclose(f); }
+    }
+    X509_free(x); EVP_PKEY_free(ca); ERR_clear_error();
+    if (!ok) { vf_incon("cannot mint the SHA-384-signed RSA identity %s", minted_rsa384); minted_rsa384[0] = 0; }
+}
+
 int main(int argc, char **argv)
 {
     vf_init(argc, argv);
     mx_global_init();
     if (vf_case) {
         cfg_t c;
+        mint_rsa_sha384();
         if (cfg_parse(vf_case, &c) < 0) { vf_incon("cannot parse case '%s'", vf_case); vf_flush(); return 2; }
         vf_fork_case(run_config, &c, "interop", vf_case, 900);
+        if (minted_rsa384[0]) unlink(minted_rsa384);
         vf_flush();
         return 0;
     }
-    if (vf_thorough) enumerate_thorough(); else { enumerate_quick(); enumerate_quick_combined(); }
+    mint_rsa_sha384();
+    if (vf_thorough) { enumerate_thorough(); enumerate_chain_hashes(1); enumerate_cookies(); enumerate_loss(); }
+    else { enumerate_quick(); enumerate_quick_combined(); enumerate_chain_hashes(0); enumerate_cookies(); enumerate_loss(); }
     long lim = vf_argl("--limit", 0);
     for (int i = 0; i < ncf; i++) {
         if (lim && i >= lim) break;
@@ -988,6 +1263,7 @@ int main(int argc, char **argv)
         sample_this = (i % (vf_thorough ? 997 : 41)) == 0;
         vf_fork_case(run_config, &CF[i], "interop", spec, 900);
     }
+    if (minted_rsa384[0]) unlink(minted_rsa384);
     if (vf_shard == 0) { vf_stat("configurations_enumerated", ncf); vf_fork_case(static_ecdh_suites, NULL, "interop", "static-ecdh-suites", 60); }
     vf_flush();
     return 0;
